@@ -57,15 +57,21 @@ CLAIMS = {
          "references) is preserved. Floor: all labelled graphs <=3 nodes.", '4 C13'),
  'C14': ('other', "Deductive: AttackGraphNode.__deepcopy__ (fresh node, fresh empty link lists, tags / extras / ttc / attributes fresh and separated from the original, asset shared, memo updated) "
          "against the assumed contract DEEPCOPY for plain data. Bounded: Attacker / AttackGraph __deepcopy__ and independence under later mutations by the floor (graphs <=3 nodes, 28 mutations).", '4 C14'),
- 'C15': ('other', "Deductive: is_subasset_of == reflexive-transitive closure (with termination), get_asset_by_name. Bounded: all language structures over <=3 types incl. ill-formed ones, "
-         "over-approximation of attack-graph edges.", '4 C15'),
+ 'C15': ('other', "Deductive: the query layer of the language graph - is_subasset_of == reflexive-transitive closure of `extends` (with termination), get_all_superassets / get_all_subassets == the ancestors / descendants "
+         "(as sets, the asset itself first), get_all_common_superassets == names of the common ancestors, get_asset_by_name, the association helpers (contains_fieldname, get_opposite_fieldname, contains_asset, "
+         "get_opposite_asset: left end first, sub-type aware) and get_association_by_fields_and_assets (first association matching both ends in either orientation). Bounded: construction of the language graph "
+         "(LanguageGraph._generate_graph, process_step_expression typing) and the over-approximation of attack-graph edges: all language structures over <=3 types incl. ill-formed ones.", '4 C15'),
  'C16': ('other', "Deductive: the frame part — _get_attacks_for_asset_type writes nothing allocated before the call (language specification untouched), its result is fresh and is a function of the specification only (see C03). Bounded: same-process, "
          "fresh-process (hash seeds) and wrapper determinism by the floor.", '4 C16'),
  'C17': ('other', "Deductive: MalCompiler.compile returns normally only if the file has no lexer error, no parser error, no unparsed tail and no malformed include, and restores its path state on every exit "
          "- verified against an ASSUMED contract of the ANTLR runtime (errors are reported to the registered listeners; a raising listener propagates) and an assumed contract of the visitor for includes. "
          "Bounded: token-level mutants of valid sources that the grammar itself rejects (root and included files) by the floor.", '4 C17'),
- 'C18': ('exploration', "Bounded only: inverse translation of native models into the 0.0.39 layout and .sCAD archives.", '4 C18'),
- 'C19': ('exploration', "Bounded only: recording stand-in for the py2neo driver.", '4 C19'),
+ 'C18': ('other', "Deductive (small part): LanguageGraph.get_association_by_fields_and_assets, through which the securiCAD loader resolves every link (first association whose two ends match the field names and asset "
+         "types in either orientation, sub-types accepted; LookupError iff an asset type is unknown). Bounded (the bulk): the loaders themselves use nested closures, dynamic class construction of "
+         "python_jsonschema_objects and zip / json / yaml - outside the verified subset: inverse translation of native models into the 0.0.39 layout and .sCAD archives.", '4 C18'),
+ 'C19': ('other', "Deductive (small part): LanguageGraph.get_association_by_fields_and_assets, through which get_model rebuilds every link read back from the database (see C18). Bounded (the bulk): "
+         "ingest_model / ingest_attack_graph / get_model against a recording stand-in for the py2neo driver (external); the three-level pair loop of ingest_model was judged out of reach for the "
+         "E-matching based prover (same shape as attach_attackers, which did not converge).", '4 C19'),
 }
 TB2 = TB
 notes = {k: TB2 for k in CLAIMS}
